@@ -96,8 +96,10 @@ def check_case(ctx, cs, defs):
             o1 = prefix()
             c1 = copy.deepcopy(o1)
             apply_step(c1, last, "method")
-            ok = compare_views(ctx, cls + ".__deepcopy__", tg, small, o1, twin(prefix_def, hist[:-1]), views_of(prefix_def), "original_after_editing_copy")
-            ok = ok and compare_views(ctx, cls + ".__deepcopy__", tg, small, c1, twin(exp, hist), views, "edited_copy")
+            # (views are read in reverse order here, e.g. the tessellation before the sampled points: the order of reads matters
+            #  when caches or components are shared)
+            ok = compare_views(ctx, cls + ".__deepcopy__", tg, small, o1, twin(prefix_def, hist[:-1]), views_of(prefix_def)[::-1], "original_after_editing_copy")
+            ok = ok and compare_views(ctx, cls + ".__deepcopy__", tg, small, c1, twin(exp, hist), views[::-1], "edited_copy")
             if ok:
                 o2 = prefix()
                 c2 = copy.deepcopy(o2)
